@@ -5,6 +5,7 @@ CONSTANTS
   ForwardHalfClose = TRUE
   JoinBeforeError = TRUE
   NeedFirstMessage = FALSE
+  InterruptibleRecv = TRUE
   FirstSendEOFFatal = FALSE
 INVARIANTS TranscriptEquivalence BackendSawPrefix BackendSawAll NoPumpOutlivesHandler
 PROPERTY Finishes
